@@ -575,7 +575,7 @@ def r02r(ck, fb, R='R02r'):
         if not ok:
             for i, blk in enumerate(b.blocks):
                 t = blk['t']
-                if t['k'] == 'switch' and idx.op_tainted(t['discr']) and log0.op_tainted(t['discr']) and i != s0.bb:
+                if i in cfg.live_blocks(b) and t['k'] == 'switch' and idx.op_tainted(t['discr']) and log0.op_tainted(t['discr']) and i != s0.bb:
                     outs = [tb for (_, tb) in t['targets']] + [t['otherwise']]
                     if any(s0.bb not in cfg.reach_from(b, [tb]) and tb != s0.bb for tb in outs) and s0.bb in cfg.reach_from(b, [i]):
                         ok = True
